@@ -73,7 +73,9 @@ def check_c15(opts):
 def corpus(rnd, tier):
     big = 300 * 1024 if tier != 'quick' else 70 * 1024
     return [[], [b''], [b'', b''], [b'a'], [b'hello', b'', b' world'], [bytes(rnd.getrandbits(8) for _ in range(1000))], [b'ab' * 5000, b'', b'cd' * 3000],
-            [bytes(rnd.getrandbits(8) for _ in range(big))], [b'x' * big]]
+            [bytes(rnd.getrandbits(8) for _ in range(big))], [b'x' * big],
+            [b'\0' * (24 * 1024 * 1024)],                      # 1000:1 compressible, several internal buffer sizes
+            [b'ab' * 100, bytes(rnd.getrandbits(8) for _ in range(70 * 1024)), b'tail']]      # small chunk, then a chunk above 64 KiB, then small
 
 
 def rechunk(rnd, data, k):
@@ -145,6 +147,41 @@ def check_c17(opts):
                     evals += 1
                     if not isinstance(got, list) or ''.join(got) != ''.join(parts):
                         fails.append({'encoding': enc, 'strings': parts, 'byte_chunks': [repr(c) for c in ch], 'expected': ''.join(parts), 'got': str(got)[:200]}); break
+    # the same piped observable subscribed twice: every subscription gets its own incremental codec state (BOM once per stream, no bytes carried over)
+    import rx
+    for enc in ('utf-8', 'utf-16', 'utf-32'):
+        text = ['h\u00e9llo ', '\U0001F600 w\u00f6rld']
+        obs = rx.from_(text).pipe(rs.data.encode(enc))
+        runs = []
+        for _ in range(2):
+            out = []
+            try: obs.subscribe(on_next=out.append)
+            except Exception as ex: out = [repr(ex).encode()]
+            runs.append(b''.join(out))
+        evals += 1
+        if runs[0] != ''.join(text).encode(enc) or runs[1] != runs[0]:
+            fails.append({'encoding': enc, 'problem': 'second subscription of the same encode pipeline differs', 'first': repr(runs[0][:12]), 'second': repr(runs[1][:12])})
+        data = ''.join(text).encode(enc)
+        dobs = rx.from_([data[:3], data[3:]]).pipe(rs.data.decode(enc))
+        runs = []
+        for _ in range(2):
+            out = []; err = []
+            try: dobs.subscribe(on_next=out.append, on_error=err.append)
+            except Exception as ex: err.append(ex)
+            runs.append(''.join(out) if not err else repr(err[0]))
+        evals += 1
+        if runs[0] != ''.join(text) or runs[1] != runs[0]:
+            fails.append({'encoding': enc, 'problem': 'second subscription of the same decode pipeline differs', 'first': runs[0], 'second': runs[1]})
+        # a first subscriber that stops inside a multi-byte sequence must not leave pending bytes for the next one
+        out = []; dobs2 = rx.from_([data[:len(data) - 1], data[len(data) - 1:]]).pipe(rs.data.decode(enc))
+        try: dobs2.pipe(ops.take(1)).subscribe(on_next=out.append)
+        except Exception: pass
+        out2 = []; err2 = []
+        try: dobs2.subscribe(on_next=out2.append, on_error=err2.append)
+        except Exception as ex: err2.append(ex)
+        evals += 1
+        if err2 or ''.join(out2) != ''.join(text):
+            fails.append({'encoding': enc, 'problem': 'decoder state leaked from a previous subscription', 'got': ''.join(out2), 'error': repr(err2[0]) if err2 else None})
     return result('e2e.C17.codec', f'all strings of length <= {3 if tier == "quick" else 4} over {{a, e-acute, euro, emoji, combining acute}} x 4 splits x utf-8/16/32/latin-1 x all byte chunkings with <= 2 cuts',
                   evals, evals, fails, True, t0)
 
@@ -288,6 +325,23 @@ def check_c20(opts):
                             fails.append({'rows': n, 'dump_batch_size': bs, 'load_batch_size': lb, 'compression': comp, 'error': repr(err[0])[:200] if err else None, 'rows_read': len(got),
                                           'first_difference': next((i for i, (a, b) in enumerate(zip(got, data)) if a != b), None)})
                             break
+        # explicit row_group_size, incl. a last batch that crosses a row-group boundary and leaves a remainder
+        for (n, bs, rg) in ((100, 100, 64), (240, 60, 100), (900, 300, 250), (150, 100, 64), (10, 3, 4), (7, 7, 7), (5, 2, 1)):
+            data = rows(n); fn = os.path.join(d, f'rg_{n}_{bs}_{rg}.parquet')
+            run_plain(data, pq_.dump_to_file(fn, schema, batch_size=bs, row_group_size=rg))
+            got = []; err = []
+            pq_.load_from_file(fn).subscribe(on_next=got.append, on_error=err.append); evals += 1
+            if err or got != data:
+                fails.append({'rows': n, 'dump_batch_size': bs, 'row_group_size': rg, 'error': repr(err[0])[:200] if err else None, 'rows_read': len(got)})
+        # the same dump pipeline object subscribed twice writes the same file twice
+        import rx
+        data = rows(5); fn = os.path.join(d, 'twice.parquet')
+        pipe = rx.from_(data).pipe(pq_.dump_to_file(fn, schema, batch_size=8))
+        for attempt in (1, 2):
+            pipe.subscribe()
+            got = []; pq_.load_from_file(fn).subscribe(on_next=got.append); evals += 1
+            if got != data:
+                fails.append({'problem': f'write #{attempt} of the same dump_to_file pipeline', 'rows': 5, 'rows_read': len(got)})
         # file object instead of a path
         buf = io.BytesIO(); data = rows(5)
         run_plain(data, pq_.dump_to_file(buf, schema, batch_size=2)); buf.seek(0)
